@@ -15,10 +15,14 @@ func init() {
 				Quick: map[string]int{"PRELUDE": 1}, Thorough: map[string]int{"PRELUDE": 5}, Witnesses: []string{"both-encode-rows", "same-names-on-both", "with-type-extension", "empty-configured-map", "with-authentication"}},
 			{Pkg: "wire", Entry: "VerifH15", What: "same, after an earlier connection that has come and gone (CancelRequest, refused SSLRequest, truncated startup packet, complete session): whatever it left behind in the server or in package-level state is not shared by the two",
 				Quick: map[string]int{"PRELUDE": 5, "FULLTRAFFIC": 1}, Thorough: map[string]int{"PRELUDE": 5, "FULLTRAFFIC": 1}, Witnesses: []string{"both-encode-rows", "after-a-cancel-request", "after-an-earlier-session"}},
+			{Pkg: "wire", Entry: "VerifH15", What: "same, with a handler that may keep ONE prepared statement and hand it to every connection (the library never required a fresh one per Parse): serving a connection does not write into what the handler shares",
+				Quick: map[string]int{"PRELUDE": 1, "FULLTRAFFIC": 1, "SHAREDSTMT": 1}, Thorough: map[string]int{"PRELUDE": 1, "SHAREDSTMT": 1}, Witnesses: []string{"both-encode-rows", "one-prepared-statement-for-all-connections"}},
 			{Pkg: "wire", Entry: "VerifH15f", What: "the same lemma on the less travelled paths: each connection optionally skips an oversized message, sends an unknown message type, fails a Bind and is discarded until Sync, runs a COPY-in cycle, and fails a statement with one shared, fully decorated error value re-decorated with the connection's own values; transcripts and callback traces equal those of the same traffic served alone by a fresh server",
 				Quick: map[string]int{}, Witnesses: []string{"both-skip-an-oversized-message", "both-copy-in", "both-discard-until-sync", "both-decorate-a-shared-error"}},
 			{Pkg: "wire", Entry: "VerifH15s", What: "the accept loop: Server.Serve on a listener handing out two connections; every goroutine the loop starts runs under an origin of its own (accesses the creator made before the go statement are ordered before the goroutine); no unsynchronised sharing between the loop and the connections or among the connections; each connection served as its own user",
 				Quick: map[string]int{}, Witnesses: []string{"two-connections-accepted"}},
+			{Pkg: "wire", Entry: "VerifH15c", What: "a graceful Close that begins (in another goroutine) while a statement function is in the middle of its result set: the closing goroutine and the connection share no unsynchronised memory, and every row is delivered",
+				Quick: map[string]int{}, Witnesses: []string{"close-began-during-a-result-set"}},
 			{Pkg: "wire", Entry: "VerifH07b", What: "names of one connection are invisible to the next", Quick: map[string]int{}, Witnesses: []string{"isolated"}},
 		},
 	})
